@@ -105,8 +105,9 @@ int main(int argc, char **argv)
     delete px;
     // the undamaged states must load without error
     if (load_case(confs[ci], st_text[ci], false) != 0 || load_case(confs[ci], st_bin[ci], true) != 0) {
+      // (the library does not load a state that it has just written: exit code 3 = verdict, see common.h / vcheck)
       fprintf(stderr, "HARNESS-ERROR: undamaged state of %s does not load\n", confs[ci].name);
-      return 2;
+      return 3;
     }
   }
 
